@@ -1603,7 +1603,7 @@ def check_c31(A: Analysis, col: Collector):
     # _check_rules raises when violations exist
     cr = A.func("pydra.compose.base.task.Task._check_rules")
     cfg = A.cfg(cr)
-    tests = [n for n in cfg.nodes if n.kind == "test" and "_rule_violations" in norm(n.stmt.test)]
+    tests = [n for n in cfg.nodes if n.kind == "test" and "_rule_violations" in norm(A.expand(n.stmt.test, cr))]
     good = False
     for t in tests:
         esc = explore(cfg, [(m, None) for l, m in t.succ if l == "T"], A.rm.tokens_fn(cr))
